@@ -14,6 +14,7 @@ EXPLANATION = (
 def run(ctx):
     ctx.uses('simulator')
     sc = S.SimCtx(ctx.prog)
+    S.shared_state(ctx, sc, 'R3.5')
     S.r31_horizon(ctx, sc)
     S.r32_ending(ctx, sc)
     S.r33_pop_horizon(ctx, sc)
